@@ -351,6 +351,7 @@ def _formal_assign(it, self, value):
 
 I.register_model(_Formal.__ilshift__, _formal_assign)
 C.inline("cohdl._core._type_qualifier:TypeQualifierBase.decay")
+C.inline("cohdl._core._enum:Enum._assign")
 
 
 class _FormalCopy:
@@ -359,7 +360,17 @@ class _FormalCopy:
 
 _Formal.copy = lambda self: None
 _FormalCopy._assign = lambda self, v: None
-I.register_model(_Formal.copy, lambda it, self: SObj(_FormalCopy, f_of=self))
+def _formal_copy(it, self):
+    # summary of TypeQualifier.copy (`Temporary(self)`): a new qualified object whose value is a COPY of the port's placeholder
+    # when the value type is copyable (all primitives) and the value itself for immutable values (enumeration members)
+    cp = SObj(_FormalCopy, f_of=self)
+    if "f_decayed" in self.fields:
+        t = self.fields.get("f_type")
+        cp.fields["f_decayed"] = _vec(t[0], t[1], 0) if t is not None else self.fields["f_decayed"]
+    return cp
+
+
+I.register_model(_Formal.copy, _formal_copy)
 
 
 def _copy_assign(it, self, value):
@@ -514,7 +525,7 @@ TYPED = {
 
 def typed_shapes(port_t, actual_t, root_t):
     def make_entity(env):
-        formal = SObj(_Formal, f_name="a", f_out=False, _default="DECL-DEFAULT", f_decayed=_vec(port_t[0], port_t[1], 0))
+        formal = SObj(_Formal, f_name="a", f_out=False, _default="DECL-DEFAULT", f_decayed=_vec(port_t[0], port_t[1], 0), f_type=port_t)
         formal.fields["width"] = port_t[1]
         info = SObj(_Info, name="ent", attributes={}, extern=True, instantiated=None, ports={"a": formal}, generics={}, architecture=None)
         return SObj(CTX.Entity, _cohdl_info=info)
@@ -563,6 +574,136 @@ for name, (port_t, actual_t, root_t, accepted) in TYPED.items():
     c.setup = _init_setup
     c.custom_replay = "contracts.c12_instances.replay_actual_type"
     con.cases.append(c)
+
+
+# ports of an enumeration type: the placeholder is a member of the enumeration (immutable, no `copy` method); the trial
+# assignment must still accept an actual of the same enumeration and reject one of another enumeration
+import cohdl as _cohdl  # noqa: E402
+
+
+class _StateA(_cohdl.enum.Enum):
+    P = 0
+    Q = 1
+
+
+class _StateB(_cohdl.enum.Enum):
+    P = 0
+    Q = 1
+
+
+def enum_shapes(actual_member):
+    def make_entity(env):
+        formal = SObj(_Formal, f_name="a", f_out=False, _default="DECL-DEFAULT", f_decayed=_StateA.P)
+        formal.fields["width"] = None
+        info = SObj(_Info, name="ent", attributes={}, extern=True, instantiated=None, ports={"a": formal}, generics={}, architecture=None)
+        return SObj(CTX.Entity, _cohdl_info=info)
+
+    def make_actual(env):
+        root = SObj(Signal, f_tag="root", _default="DEFAULT-root", _ref_spec=[], f_decayed=actual_member)
+        root.fields["_root"] = root
+        root.fields["width"] = None
+        return root
+
+    return [Built([], make_entity, lambda a: "<entity>", lambda a: None)], {"a": Built([], make_actual, lambda a: "<actual>", lambda a: None)}
+
+
+for name, member, accepted in (("enum<-signal-of-the-same-enum", _StateA.Q, True), ("enum<-signal-of-another-enum", _StateB.Q, False)):
+    shapes, kw = enum_shapes(member)
+    c = Case(f"connect-type:{name}", shapes, typed_spec(accepted), kwargs=kw)
+    c.native = False
+    if not accepted:
+        c.may_reject = AssertionError
+    c.models = [
+        (CTX.Block.__dict__["__init__"], lambda it, self, *a, **k: None),
+        (CTX._register_block, lambda it, blk: None),
+        (_TQB.__dict__["decay"], _decay_model),
+    ]
+    c.setup = _init_setup
+    c.custom_replay = "contracts.c12_instances.replay_enum_port"
+    con.cases.append(c)
+
+
+# the same trial in the front end (out.Entity.__init__, executed for every instance when its parent is converted)
+from cohdl._compiler.frontend import _prepare_ast_out as _OUT  # noqa: E402
+
+
+def out_entity_shapes(formal_value, formal_type, actual_value):
+    def make_template(env):
+        formal = SObj(_Formal, f_name="a", f_out=False, _default="DECL-DEFAULT", f_decayed=formal_value() if callable(formal_value) else formal_value)
+        if formal_type is not None:
+            formal.fields["f_type"] = formal_type
+        info = SObj(_Info, name="ent", attributes={}, extern=True, ports={"a": formal}, generics={})
+        return SObj(_OUT.EntityTemplate, _info=info)
+
+    def make_defs(env):
+        return {"a": SObj(Signal, f_tag="root", _default="DEFAULT-root", _ref_spec=[], f_decayed=actual_value() if callable(actual_value) else actual_value)}
+
+    B = lambda mk, txt: Built([], mk, lambda a: txt, lambda a: None)
+    return [B(lambda env: SObj(_OUT.Entity), "<instance>"), B(make_template, "<template>"), B(make_defs, "<port definitions>"), B(lambda env: {}, "{}")]
+
+
+def out_entity_spec(accepted):
+    def spec(sx, self, template, port_definitions, generic_definitions):
+        if not accepted:
+            sx.reject(AssertionError)
+        rs, rt, rd = sx.real_args[0], sx.real_args[1], sx.real_args[2]
+        return C.Pred(lambda res: rs.fields.get("_template") is rt and rs.fields.get("_port_definitions") is rd and not sx.it.formal_writes,
+                      "accepted: template and actuals recorded, the declared port objects are not written")
+
+    return spec
+
+
+con_out = contract("cohdl._compiler.frontend._prepare_ast_out:Entity.__init__", PROPS + ("C11",))
+for name, fv, ft, av, accepted in (
+    ("enum<-signal-of-the-same-enum", _StateA.P, None, _StateA.Q, True),
+    ("enum<-signal-of-another-enum", _StateA.P, None, _StateB.Q, False),
+    ("unsigned<-unsigned-signal", lambda: _vec(_U, 4, 0), (_U, 4), lambda: _vec(_U, 4, 0), True),
+    ("bitvector<-wider-bitvector-signal", lambda: _vec(_BV, 4, 0), (_BV, 4), lambda: _vec(_BV, 8, 0), False),
+):
+    c = Case(f"trial:{name}", out_entity_shapes(fv, ft, av), out_entity_spec(accepted))
+    c.native = False
+    if not accepted:
+        c.may_reject = AssertionError
+    c.models = [
+        (_OUT.Block.__dict__["__init__"], lambda it, self, *a, **k: None),
+        (_TQB.__dict__["decay"], _decay_model),
+    ]
+    c.setup = _init_setup
+    c.custom_replay = "contracts.c12_instances.replay_enum_port"
+    con_out.cases.append(c)
+
+
+_ENUM_PORT_DESIGN = '''
+import cohdl
+from cohdl import Entity, Port, Bit, Signal, std
+class State(cohdl.enum.Enum):
+    A = 0
+    B = 1
+class Decode(Entity, extern=True):
+    s = Port.input(State)
+    y = Port.output(Bit)
+class Top(Entity):
+    x = Port.input(Bit)
+    o = Port.output(Bit)
+    def architecture(self):
+        st = Signal[State](State.A, name="st")
+        Decode(s=st, y=self.o)
+        @std.concurrent
+        def logic():
+            st.next = State.B if self.x else State.A
+try:
+    t = std.VhdlCompiler.to_string(Top)
+    print("ACCEPTED", [l.strip() for l in t.splitlines() if "=> st" in l])
+except AssertionError as e:
+    print("REJECTED", str(e)[:120])
+'''
+
+
+def replay_enum_port(payload):
+    from contracts.c06_extra import _run_design
+
+    rc, out = _run_design(_ENUM_PORT_DESIGN)
+    return {"reproduced": "REJECTED" in out, "detail": "a signal of an enumeration type connected to a port of the same enumeration: " + out[-250:]}
 
 
 _ACTUAL_TYPE_DESIGN = '''
